@@ -602,6 +602,7 @@ func (e *executor) exec(line, lean string) string {
 					shown = fmt.Sprintf("#%d", len(kept))
 				}
 				l = fmt.Sprintf("ok kept=%s size=%d allcap=%d dup=%d", shown, wl.Size(), allcap, dup)
+				l += keptOracle(words, kept, int(wl.Size()), allcap == 1)
 				if !sameStrings(src, words) {
 					l += " MUTATED=caller-slice"
 				}
@@ -1120,4 +1121,56 @@ func matchWords(pw string, kept []string, L int, sep, scheme string) bool {
 		return res
 	}
 	return L >= 1 && rec(0, 0, 0)
+}
+
+// keptOracle: the specification of NewWordList's kept set (C10), computed directly: one copy of
+// each distinct word, minus every word that is the title-cased form of another listed word;
+// Size() is its cardinality; "all capitalisable" iff no kept word equals its own title form (C08).
+func keptOracle(input, kept []string, size int, allcap bool) string {
+	in := map[string]bool{}
+	for _, w := range input {
+		in[w] = true
+	}
+	titled := map[string]bool{} // title-cased forms of words that change under title-casing
+	for u := range in {
+		if t := strings.Title(u); t != u {
+			titled[t] = true
+		}
+	}
+	want := map[string]bool{}
+	for w := range in {
+		if !titled[w] {
+			want[w] = true
+		}
+	}
+	got := map[string]bool{}
+	for _, w := range kept {
+		if got[w] {
+			return " KEPT-FAIL=duplicate-kept"
+		}
+		got[w] = true
+	}
+	for w := range want {
+		if !got[w] {
+			return " KEPT-FAIL=dropped:" + encCps(w)
+		}
+	}
+	for w := range got {
+		if !want[w] {
+			return " KEPT-FAIL=kept-although-twin-or-unlisted:" + encCps(w)
+		}
+	}
+	if size != len(want) {
+		return " KEPT-FAIL=size"
+	}
+	fixed := false
+	for w := range want {
+		if strings.Title(w) == w {
+			fixed = true
+		}
+	}
+	if allcap == fixed {
+		return " ALLCAP-FAIL"
+	}
+	return ""
 }
